@@ -3,7 +3,7 @@
 //!   twin replay <fn> <json vals>     re-run one recorded case (Kani concrete playback bytes or an explicit case)
 use runtime_cx::*;
 
-const ALPHABET: &[&str] = &["a", "A", "z", "Z", "_", "[", "{", " ", "\t", "\n", "\x0B", "\x0C", "\r", "0", "é", "\u{a0}", "€", "\u{2003}", "😀", "\u{9c7c}"];
+const ALPHABET: &[&str] = &["a", "A", "z", "Z", "_", "[", "{", " ", "\t", "\n", "\x0B", "\x0C", "\r", "0", "é", "\u{a0}", "€", "\u{2003}", "😀", "\u{9c7c}", "\u{feff}"];
 const CHARS: &[char] = &['a', 'A', 'z', 'Z', '_', '[', '{', ' ', '\n', '\x0B', '0', 'é', '\u{a0}', '€', '😀', '\u{9c7c}', '\u{e9}'];
 const LITS: &[&str] = &["", "a", "ab", "aB", "é", "a_", "_[", "zz", " a", "€"];
 
@@ -22,7 +22,8 @@ fn inputs() -> Vec<String> {
 /// what a failed contract check is about: 'safety' (cursor off a boundary / not a suffix of the input / panic),
 /// 'error' (content of the reported or recorded error) or 'value' (match / no match, value, bytes consumed)
 fn class_of(why: &str) -> &'static str {
-    if why.contains("boundary") || why.contains("suffix") || why.contains("panic") { "safety" }
+    if why.contains("caller's input") { "all" }       // concerns every property that reads an offset
+    else if why.contains("boundary") || why.contains("suffix") || why.contains("panic") { "safety" }
     else if why.contains("error") { "error" }
     else { "value" }
 }
